@@ -511,6 +511,12 @@ impl Store {
     pub fn insert_frame(&self, frame: &Frame) -> Result<(), crate::error::Error> {
         let encoded: Vec<u8> = serde_json::to_vec(&frame).unwrap();
 
+        // A frame that does not decode again (e.g. meta nested deeper than serde_json's recursion
+        // limit) would make every later read of the stream panic: refuse it here instead
+        if let Err(e) = serde_json::from_slice::<Frame>(&encoded) {
+            return Err(format!("Frame cannot be stored: {}", e).into());
+        }
+
         // Get the index topic key
         let topic_key = idx_topic_key_from_frame(frame)?;
 
